@@ -21,8 +21,9 @@ RULE = ("a case = up to 4 simulated hosts, each consistently good (well-formed V
         "non-trivial = at least two datagrams or at least one bad host")
 ASSUMPTIONS = ["each host is consistently good or consistently bad within a run (the statement does not say which reply wins otherwise)",
                "V1-style XML replies that carry a port attribute trigger a TCP probe of that host: such a host is unusable and must be omitted like the other bad classes as long as the TCP connection can be made; a refused or never-completing TCP connect is outside the statement's reply classes (DESIGN section 4, observation 3) and is not generated"]
-ANCHORS = ["discover.py:_DiscoverProtocol.datagram_received", "discover.py:Discover.discover", "discover.py:Discover._get_device",
-           "discover.py:Discover._get_device_info"]
+# reach anchors: only entry points this check calls itself or callbacks the event loop needs (robust against internal refactors);
+# that the mechanism was really exercised is demanded through MIN_NONTRIVIAL / MIN_HIST outcome counts
+ANCHORS = ["discover.py:Discover.discover", "discover.py:_DiscoverProtocol.datagram_received"]
 MIN_NONTRIVIAL = {"quick": 2000, "thorough": 40000}
 WORKERS = {"quick": 1, "thorough": 16}
 EXHAUSTIVE = {t: ["every distinct arrival interleaving of <= 6 datagrams from <= 3 hosts", "every bad-reply class alone and from every subset of hosts"]
@@ -142,6 +143,20 @@ def _vary(rng, hosts):
     return hosts
 
 
+def _vary2(rng, case):
+    """Network-level events that make no host a bad responder."""
+    good = [h for h in case["hosts"] if h["good"]]
+    if len(good) >= 2 and rng.random() < 0.2:
+        # several addresses report the same device id (a unit reachable over two interfaces, clones, factory-reset modules):
+        # the statement counts responding addresses
+        for h in good:
+            h["shared_id"] = True
+    if rng.random() < 0.2:
+        # the kernel reports ICMP errors for the probes (port unreachable from some other machine on the subnet): asyncio hands
+        # them to the protocol's error_received at these times (seconds after the start of the run)
+        case["udp_errors"] = sorted(rng.choice([0.0, 0.03, 0.055, 0.065, 0.08, 0.2, 0.6, 1.7]) for _ in range(rng.randint(1, 3)))
+
+
 def generate(ctx, rng):
     for key, case in _generate(ctx, rng):
         _vary(rng, case["hosts"])
@@ -149,6 +164,7 @@ def generate(ctx, rng):
         case["timeout"] = rng.choice([None, None, 1, 2, 3, 8])
         # the probe is addressed to a host name (resolving to the first host) instead of the broadcast address
         case["named"] = rng.random() < 0.12
+        _vary2(rng, case)
         yield key, case
 
 
@@ -210,6 +226,8 @@ def run_case(ctx, case):
         ip = f"10.18.0.{i + 1}"
         if h["good"]:
             ident = (r.getrandbits(48), 6444, r.getrandbits(16))
+            if h.get("shared_id"):
+                ident = (0x0000C18C18C18 & 0xFFFFFFFFFFFF, 6444, ident[2])
             # the address inside the reply body need not be the address the reply comes from (another host's, none, a foreign one)
             body_ip = {None: None, "other": f"10.18.0.{(i + 1) % len(hosts) + 1}", "zero": "0.0.0.0", "foreign": "192.168.77.5"}[h.get("body_ip")]
             replies[i] = _good_reply(ident, ip, h["version"], body_ip, h.get("type", "ac"))
@@ -247,9 +265,17 @@ def run_case(ctx, case):
         kw["target"] = "hvac-unit.lan"
 
     async def go(loop):
+        import asyncio
+        for t in case.get("udp_errors") or ():
+            def icmp():
+                for tr in getattr(net, "udp_transports", []):
+                    if not tr.is_closing():
+                        tr.protocol.error_received(ConnectionRefusedError(111, "Connection refused"))
+                        ctx.bump("icmp-errors-delivered-to-the-discovery-socket")
+            loop.call_later(t, icmp)
         return await Discover.discover(**kw)
 
-    key = ("c18", tmo, named, tuple(h.get("delay") for h in hosts), tuple((h["good"], h.get("klass"), h["version"], h["copies"], h.get("dual"), h.get("body_ip"), h.get("type")) for h in hosts), tuple(case["order"]), case.get("gap"))
+    key = ("c18", tmo, named, tuple(case.get("udp_errors") or ()), tuple(bool(h.get("shared_id")) for h in hosts), tuple(h.get("delay") for h in hosts), tuple((h["good"], h.get("klass"), h["version"], h["copies"], h.get("dual"), h.get("body_ip"), h.get("type")) for h in hosts), tuple(case["order"]), case.get("gap"))
     nontrivial = len(case["order"]) >= 2 or any(not h["good"] for h in hosts)
     unhandled = []
     try:
